@@ -480,11 +480,18 @@ def verdict_stream_for(name, crate, subcmd, quick_n, thorough_n, flags=None, sha
         for s in range(shards):
             f = os.path.join(ctx.scratch, "%s-%d.txt" % (name, s))
             cmds.append("%s %s --seed %d --n %d --out %s" % (exe, subcmd, ctx.seed * 1000 + s, n, f)); files.append(f)
-        for rc, out in vc.parallel(cmds, jobs=shards):
-            if rc != 0:
+        # a scenario that never ends (a tracing call or flush() that blocks) is a verdict, not a
+        # failure of the machinery: the process is killed after a generous bound and reported
+        limit = 300 if ctx.tier == "quick" else 2400
+        for (rc, out), cmd in zip(vc.parallel(cmds, jobs=shards, timeout=limit), cmds):
+            if rc == 124:
+                res.oracle_fails.append({"line": 0, "case": "the %s scenarios did not finish within %d s (a tracing call, flush() or the collector blocks): %s" % (name, limit, cmd.split("/")[-1][:200]), "file": None})
+            elif rc != 0:
                 raise BuildError("harness %s run failed (rc %s): %s" % (name, rc, out[-2000:]))
         seen = set()
         for f in files:
+            if not os.path.exists(f):
+                continue
             with open(f, errors="replace") as fh:
                 for i, line in enumerate(fh, 1):
                     if line.startswith("#stat "):
